@@ -47,9 +47,9 @@ def judge_trace(prog, t, st, ot):
                     ("SuspendExecution", "TimedSuspendExecution", *CONTROL)]
     if body_control and t.outcome == "raise":
         return None  # a nested operation's control exception passing through a context body (judged in its own cell)
-    strat_raised = [e for e in user_events(t, "strategy") if e.data.get("outcome", "").startswith("builtins.Exception")]
-    if strat_raised and t.outcome == "raise" and t.value.key().startswith("exc<"):
-        return None  # user-supplied policy code failed: not an operation outcome (documented assumption)
+    # (an earlier version exempted a raising user-supplied retry / wait strategy as "not an operation outcome". It is one: ctx.step() raises to user code,
+    # which may catch it and go on, and nothing was recorded - the next invocation shows the same call another outcome: h3_C03 #1. wait_for_condition
+    # calls its strategy inside the try that records FAIL; the step did not.)
     if t.outcome == "return":
         if st in ("SUCCEEDED",):
             return None
@@ -99,7 +99,7 @@ def build() -> Check:
         "FIFO queues; wrapper: large result is recorded synchronously before SUCCEEDED is returned.",
         ["thread interleavings are not explored: the argument composes R1/R2 (caller blocks on its own event), R3 (the event is set only "
          "after the API returned and the response was merged) and the stdlib Queue/Event happen-before guarantees",
-         "an exception raised by a user-supplied retry/wait strategy is not an operation outcome"],
+         "a user-supplied retry / wait strategy may raise like any other user code: the operation's failure must be recorded all the same"],
         "one obligation per (rule, executor, cell) and per CFG site",
     )
     term = terminal_statuses(prog)
